@@ -10,6 +10,7 @@ EXPLANATION = (
     "call must establish version, pending-identifier, poll-window, identifier match, non-KISS, "
     "stratum and mode conditions; the pending identifier is cleared before the measurement is "
     "handed on; exactly two handle_measurement calls per accepted packet."
+    ' NtpPacket::is_kiss is `stratum == 0` for every header version, so kiss packets of any version are kept away from process_message.'
 )
 NOT_DECIDED = ["cryptographic strength of the identifier", "clock behaviour of tokio::time::Instant"]
 
